@@ -159,10 +159,10 @@ var properties = map[string]*Property{
 		ID:    "C15",
 		Title: "A failed evaluation leaves earlier definitions intact",
 		Units: []Unit{
-			{Kind: "funcs", Pkg: "fast", Funcs: []string{"(*Comp).DeclFunc"}},
+			{Kind: "funcs", Pkg: "fast", Funcs: []string{"(*Comp).DeclFunc", "(*Comp).DeclType"}},
 		},
 		NotCovered: []string{
-			"everything but function declarations: variables, constants and types declared by an input that fails later are NOT rolled back by the code (hand-confirmed finding F12: a := 1; then `var a string = \"s\"; var b = nope` leaves a as an invalid string); a contract on Comp.Compile saying so was tried and withdrawn: with its callees uncontracted every panic exit fails, the spurious ones with the genuine one",
+			"everything but the failing declaration itself (a function, or a named type: Comp.DeclFunc and Comp.DeclType restore the previous meaning of the name): variables, constants and types declared by *earlier* declarations of an input that fails later are NOT rolled back by the code (hand-confirmed finding F12: a := 1; then `var a string = \"s\"; var b = nope` leaves a as an invalid string); a contract on Comp.Compile saying so was tried and withdrawn: with its callees uncontracted every panic exit fails, the spurious ones with the genuine one",
 			"that no code of a failing input runs (compile before run: Interp.Eval / ParseEvalPrint); type redefinition keeping earlier variables readable (xreflect.NamedOf)",
 			"method declarations and generic functions (delegated by DeclFunc to methodDecl / DeclGenericFunc)",
 		},
@@ -221,9 +221,10 @@ var properties = map[string]*Property{
 		Title: "Reported source positions are exact across chunks and line offsets",
 		Units: []Unit{
 			{Kind: "funcs", Pkg: "go/etoken", Funcs: []string{"(*File).PositionFor", "(*File).Position", "(*File).Source", "(*FileSet).AddFile", "(*FileSet).File", "(*FileSet).PositionFor"}},
+			{Kind: "funcs", Pkg: "fast", Funcs: []string{"(*Interp).Read"}},
 		},
 		NotCovered: []string{
-			"the first sentence: that the line counter advanced per chunk (Output.IncLine, Interp.Read, Interp.afterEval) gives each chunk the starting line of its first line in the original input, and that errors, panics and debugger stops use these positions: histories of reads",
+			"the first sentence beyond one Read: Interp.Read is proved to advance the line counter by the newlines in front of the first token of the chunk it hands back (strings.Count as an uninterpreted function); that afterEval advances it by the rest of the chunk, and that errors, panics and debugger stops use these positions, is a property of histories of reads and is not covered",
 			"token.File.PositionFor and token.FileSet.File of the standard library are taken as pure functions; SetSourceForContent (splitting the text into lines)",
 		},
 	},
@@ -231,7 +232,7 @@ var properties = map[string]*Property{
 		ID:    "C28",
 		Title: "Type identity is a total equivalence consistent with type hashing and type maps",
 		Units: []Unit{
-			{Kind: "funcs", Pkg: "go/typeutil", Funcs: []string{"identical", "identicalVar", "Identical", "IdenticalIgnoreTags",
+			{Kind: "funcs", Pkg: "go/typeutil", Funcs: []string{"sameName", "identical", "identicalVar", "Identical", "IdenticalIgnoreTags",
 				"(Hasher).Hash", "(Hasher).hashFor", "(Hasher).hashTuple", "(Hasher).hashVar", "hashNamed", "hashString",
 				"(*Map).At", "(*Map).Len", "(*Map).Delete", "(*Map).Set"}},
 		},
